@@ -130,9 +130,9 @@ theorem Dir.popB {c : PC} {S R : List Bytes} (d : Dir x j c S R) {w : WsIn} {r :
 
 /-- A stream object is created at the right side (by a `Connect x` or an `Acknowledge x`): it could. -/
 theorem Dir.newB {c : PC} {S R : List Bytes} (d : Dir x j c S R) (hp : Pot x c) {m : Msg} {r : List WsIn}
-    (h : c.b.inbox = .msg m :: r) (hm : isPush x m = false) (i nb : Nat) (oq ba' : List Msg) :
+    (h : c.b.inbox = .msg m :: r) (hm : isPush x m = false) (i nb nw' : Nat) (rx' : Bool) (oq ba' : List Msg) :
     Dir x j { c with b := { c.b with inbox := r, slot := some (.established i), len := c.b.len + 1, nobj := nb,
-                                     canJ := c.b.len == j, outq := oq }, ba := ba' } S R := by
+                                     canJ := c.b.len == j, nw := nw', rxJ := rx', outq := oq }, ba := ba' } S R := by
   have hpx : pX x (inMsgs c.b.inbox) = pX x (inMsgs r) := by rw [h]; exact pX_cons_other x m _ hm
   refine ⟨d.d0, ?_, ?_, ?_, ?_, d.d5⟩
   · intro hl
@@ -169,11 +169,12 @@ theorem Dir.pushAccB {c : PC} {S R : List Bytes} (d : Dir x j c S R) {dd : Bytes
     · have := h4.1 ho; rw [← this, List.append_assoc]; exact List.prefix_append _ _
     · exact List.IsPrefix.trans (List.prefix_append _ _) (h4.2 (by simpa using ho))
 
-/-- A `Push x` is not accepted into object `j`. -/
-theorem Dir.pushRejB (hex : ¬(ownA ∧ ownB)) {c : PC} {S R : List Bytes} (hc : CoreS ownA ownB (sm x c))
+/-- After a refused `Push x` the right side cannot create a stream object for `x` any more. -/
+theorem Pot.pushRejB (hex : ¬(ownA ∧ ownB)) {c : PC} {S R : List Bytes} (hc : CoreS ownA ownB (sm x c))
     (d : Dir x j c S R) {dd : Bytes} {r : List WsIn} (h : c.b.inbox = .msg (.frame (.push x dd)) :: r)
     {s : Option Slot} (hs : (s = c.b.slot ∧ c.b.canJ = false) ∨ s = none) (ba' : List Msg) :
-    Dir x j { c with b := { c.b with inbox := r, slot := s, canJ := false }, ba := ba' } S R := by
+    (∀ q, s ≠ some (.requested q)) ∧
+      ¬ Pot x { c with b := { c.b with inbox := r, slot := s, canJ := false }, ba := ba' } := by
   have hap : 1 ≤ cAP x c.path := by
     simp only [PC.path]; rw [h]
     simp [inMsgs, cAP_cons, cAP_append, isAP, isPush]
@@ -190,15 +191,22 @@ theorem Dir.pushRejB (hex : ¬(ownA ∧ ownB)) {c : PC} {S R : List Bytes} (hc :
     have := (d.d3 q hq').1
     simp only [PC.live] at this; rw [h] at this
     rw [inMsgs_cons_msg, List.cons_append, List.cons_append, guarded_push_cons] at this; cases this
-  have hnp : ¬ Pot x { c with b := { c.b with inbox := r, slot := s, canJ := false }, ba := ba' } := by
-    rintro (hp | hp | ⟨q, hp⟩ | hp)
-    · dsimp only at hp; omega
-    · dsimp only at hp; omega
-    · exact hnoreq q hp
-    · have h1 : hasConn x c.path = true := by
-        simp only [PC.path] at hp ⊢; rw [h]; exact hasConn_inMsgs_cons x _ r _ _ hp
-      have := (hasConn_iff x _).1 h1
-      omega
+  refine ⟨hnoreq, ?_⟩
+  rintro (hp | hp | ⟨q, hp⟩ | hp)
+  · dsimp only at hp; omega
+  · dsimp only at hp; omega
+  · exact hnoreq q hp
+  · have h1 : hasConn x c.path = true := by
+      simp only [PC.path] at hp ⊢; rw [h]; exact hasConn_inMsgs_cons x _ r _ _ hp
+    have := (hasConn_iff x _).1 h1
+    omega
+
+/-- A `Push x` is not accepted into object `j`. -/
+theorem Dir.pushRejB (hex : ¬(ownA ∧ ownB)) {c : PC} {S R : List Bytes} (hc : CoreS ownA ownB (sm x c))
+    (d : Dir x j c S R) {dd : Bytes} {r : List WsIn} (h : c.b.inbox = .msg (.frame (.push x dd)) :: r)
+    {s : Option Slot} (hs : (s = c.b.slot ∧ c.b.canJ = false) ∨ s = none) (ba' : List Msg) :
+    Dir x j { c with b := { c.b with inbox := r, slot := s, canJ := false }, ba := ba' } S R := by
+  obtain ⟨hnoreq, hnp⟩ := Pot.pushRejB hex hc d h hs ba'
   exact ⟨d.d0, fun hl => ⟨(d.d1 hl).1, rfl⟩, fun _ hp => absurd hp hnp, fun q hq => absurd hq (hnoreq q),
     fun hk => (by cases hk), d.d5⟩
 
@@ -228,19 +236,41 @@ theorem Dir.clearInboxB (hex : ¬(ownA ∧ ownB)) {c : PC} {S R : List Bytes} (h
   rw [h1] at h2
   exact ⟨h2.1, fun _ => List.nil_prefix⟩
 
+/-- A `Finish x` is processed at the right side: object `j` stops accepting; a pending slot is released. -/
+theorem Dir.popFinB {c : PC} {S R : List Bytes} (d : Dir x j c S R) {r : List WsIn} {s : Option Slot}
+    (h : c.b.inbox = .msg (.frame (.finish x)) :: r)
+    (hs : (∃ i, c.b.slot = some (.established i) ∧ s = c.b.slot) ∨ ((∀ i, c.b.slot ≠ some (.established i)) ∧ s = none))
+    (ba' : List Msg) :
+    Dir x j { c with b := { c.b with inbox := r, slot := s, canJ := false }, ba := ba' } S R := by
+  have hnoreq : ∀ q, s ≠ some (.requested q) := by
+    intro q hq
+    rcases hs with ⟨i, h1, h2⟩ | ⟨_, h2⟩
+    · rw [h2, h1] at hq; cases hq
+    · rw [h2] at hq; cases hq
+  have hw : ∀ m, WsIn.msg (.frame (.finish x)) = .msg m → isPush x m = false := by
+    intro m hm; cases hm; rfl
+  refine d.transB rfl rfl rfl (Nat.le_refl _) (fun hk => by cases hk) ?_ (fun q hq => absurd hq (hnoreq q)) ?_ ?_
+  · refine Pot.mono (Nat.le_refl _) (Nat.le_refl _) (fun q hq => absurd hq (hnoreq q)) ?_
+    simp only [PC.path]; rw [h]; exact hasConn_inMsgs_cons x _ r _ _
+  · intro _; dsimp only; rw [h, pX_inMsgs_cons x _ r hw]
+  · intro _; dsimp only; rw [h, pX_inMsgs_cons x _ r hw]
+
 /-- The right view acts. -/
 theorem Dir.actB (hex : ¬(ownA ∧ ownB)) {c : PC} {S R : List Bytes} {v : View} {ws : List Msg} {acc : List Bytes}
-    (hc : CoreS ownA ownB (sm x c)) (d : Dir x j c S R) (h : AStep x j c.b v ws acc) (hn : v.rngNil = false)
-    (ba' : List Msg) : Dir x j { c with b := v, ba := ba' } S (R ++ acc) := by
+    {xl : List XL} (hc : CoreS ownA ownB (sm x c)) (d : Dir x j c S R) (h : AStep x j c.b v ws acc xl)
+    (hn : v.rngNil = false) (ba' : List Msg) : Dir x j { c with b := v, ba := ba' } S (R ++ acc) := by
   cases h with
   | emit m r h => rw [List.append_nil]; exact d.of_eq rfl rfl rfl rfl rfl rfl rfl rfl rfl rfl rfl
   | sendClose => rw [List.append_nil]; exact d.of_eq rfl rfl rfl rfl rfl rfl rfl rfl rfl rfl rfl
-  | enq m hc h1 h2 => rw [List.append_nil]; exact d.of_eq rfl rfl rfl rfl rfl rfl rfl rfl rfl rfl rfl
+  | enq m hc h1 h3 h4 h5 h2 => rw [List.append_nil]; exact d.of_eq rfl rfl rfl rfl rfl rfl rfl rfl rfl rfl rfl
+  | enqPush dd hc hw => rw [List.append_nil]; exact d.of_eq rfl rfl rfl rfl rfl rfl rfl rfl rfl rfl rfl
+  | enqFinS hc hw => rw [List.append_nil]; exact d.of_eq rfl rfl rfl rfl rfl rfl rfl rfl rfl rfl rfl
+  | enqFinB hc hb => rw [List.append_nil]; exact d.of_eq rfl rfl rfl rfl rfl rfl rfl rfl rfl rfl rfl
   | rng k n hk hn' =>
     rw [List.append_nil]
     exact d.transB rfl rfl rfl (Nat.le_refl _) id (Pot.mono (Nat.le_refl _) hk (fun q hq => ⟨q, hq⟩) id)
       (fun q hq => ⟨q, hq, id, id⟩) (fun _ => rfl) (fun _ => rfl)
-  | draw k n s m hk hn' hd hs ho hne hm1 hm2 =>
+  | draw k n s m hk hn' hd hs ho hkind =>
     rw [List.append_nil]
     have hk' : k < c.b.cnt := by
       rcases hd with hd | hd
@@ -249,8 +279,17 @@ theorem Dir.actB (hex : ¬(ownA ∧ ownB)) {c : PC} {S R : List Bytes} {v : View
     exact d.drawB hc (by omega) k n s _ ba'
   | pop w r h hw =>
     rw [List.append_nil]
-    exact d.popB h (fun m hm => (hw m hm).2.2) (Or.inl fun m hm => (hw m hm).2.1) _ ba'
-  | degrade s k hs hk =>
+    exact d.popB h (fun m hm => (hw m hm).2.2.1) (Or.inl fun m hm => (hw m hm).2.1) _ ba'
+  | popFin r s h hs => rw [List.append_nil]; exact d.popFinB h hs ba'
+  | popBind m r b h hm hb =>
+    rw [List.append_nil]
+    have hk := isBind_kinds hm
+    have hap : isAck x m = false ∧ isPush x m = false := by
+      have := hk.2; simp only [isAP, Bool.or_eq_false_iff] at this; exact this
+    have := d.popB h (fun m' hm' => by cases hm'; exact hap.2) (Or.inl fun m' hm' => by cases hm'; exact hap.1)
+      c.b.srcEnded ba'
+    exact this.of_eq rfl rfl rfl rfl rfl rfl rfl rfl rfl rfl rfl
+  | degrade s k w b rx hs hk hkeep hw hb hr =>
     rw [List.append_nil]
     have hslot : ∀ q, s = some (.requested q) → c.b.slot = some (.requested q) := by
       intro q hq
@@ -266,12 +305,12 @@ theorem Dir.actB (hex : ¬(ownA ∧ ownB)) {c : PC} {S R : List Bytes} {v : View
       (Or.inl fun m' hm' => by cases hm'; exact isConn_not_ack hm) c.b.srcEnded ba'
   | connNew m r n h hm hs =>
     rw [List.append_nil]
-    refine d.newB (Or.inr (Or.inr (Or.inr ?_))) h (isConn_not_push hm) _ _ _ ba'
+    refine d.newB (Or.inr (Or.inr (Or.inr ?_))) h (isConn_not_push hm) _ _ _ _ _ ba'
     simp only [PC.path, hasConn_append]; rw [h]
     simp [inMsgs, hasConn, hm]
   | ackNew m r q h hm hs =>
     rw [List.append_nil]
-    exact d.newB (Or.inr (Or.inr (Or.inl ⟨q, hs⟩))) h (isAck_not_push hm) _ _ c.b.outq ba'
+    exact d.newB (Or.inr (Or.inr (Or.inl ⟨q, hs⟩))) h (isAck_not_push hm) _ _ _ _ c.b.outq ba'
   | ackOld m r h hm hs =>
     rw [List.append_nil]
     exact d.popB h (fun m' hm' => by cases hm'; exact isAck_not_push hm) (Or.inr hs) c.b.srcEnded ba'
@@ -304,17 +343,22 @@ theorem Dir.dlvB {c : PC} {S R : List Bytes} (d : Dir x j c S R) {m : Msg} {rest
     rw [← pX_append, ← pX_append, hl]
   · intro hf; rw [ho] at hf; cases hf
 
+/-- The wire to the right side ends: what the right side could do afterwards it could do before. -/
+theorem Pot.closeB {c : PC} {I' : List WsIn} {E T : List Msg}
+    (hI : inMsgs I' = inMsgs c.b.inbox ++ E) (hE : c.ab = E ++ T) :
+    Pot x { c with ab := [], abOpen := false, b := { c.b with inbox := I' } } → Pot x c := by
+  refine Pot.mono (Nat.le_refl _) (Nat.le_refl _) (fun q hq => ⟨q, hq⟩) ?_
+  simp only [PC.path]
+  rw [hI, hE, List.append_nil]
+  simp only [hasConn_append, Bool.or_eq_true]
+  grind
+
 /-- The wire to the right side ends (a delivered Close, or a cut): what was on it is lost. -/
 theorem Dir.closeB {c : PC} {S R : List Bytes} (d : Dir x j c S R) {I' : List WsIn} {E T : List Msg}
     (hI : inMsgs I' = inMsgs c.b.inbox ++ E) (hE : c.ab = E ++ T) (hpE : pX x E = []) :
     Dir x j { c with ab := [], abOpen := false, b := { c.b with inbox := I' } } S R := by
   have hpx : pX x (inMsgs I') = pX x (inMsgs c.b.inbox) := by rw [hI, pX_append, hpE, List.append_nil]
-  have hpot : Pot x { c with ab := [], abOpen := false, b := { c.b with inbox := I' } } → Pot x c := by
-    refine Pot.mono (Nat.le_refl _) (Nat.le_refl _) (fun q hq => ⟨q, hq⟩) ?_
-    simp only [PC.path]
-    rw [hI, hE, List.append_nil]
-    simp only [hasConn_append, Bool.or_eq_true]
-    grind
+  have hpot := Pot.closeB (x := x) hI hE
   refine ⟨d.d0, d.d1, ?_, ?_, ?_, d.d5⟩
   · intro hl hp
     have h2 := d.d2 hl (hpot hp)
@@ -341,11 +385,11 @@ theorem Dir.closeB {c : PC} {S R : List Bytes} (d : Dir x j c S R) {I' : List Ws
     · exact h4.2 (by simpa using ho)
 
 /-- The byte invariant is preserved by every small step in which the right side acts or receives. -/
-theorem Dir.stepB (hex : ¬(ownA ∧ ownB)) {c c'' : PC} {S R : List Bytes} {ws : List Msg} {acc : List Bytes}
-    (hc : CoreS ownA ownB (sm x c)) (hw : Wires c) (d : Dir x j c S R) (st : CStepL x j c.swap c'' ws acc)
+theorem Dir.stepB (hex : ¬(ownA ∧ ownB)) {c c'' : PC} {S R : List Bytes} {ws : List Msg} {acc : List Bytes} {xl : List XL}
+    (hc : CoreS ownA ownB (sm x c)) (hw : Wires c) (d : Dir x j c S R) (st : CStepL x j c.swap c'' ws acc xl)
     (hn : c''.a.rngNil = false) : Dir x j c''.swap S (R ++ acc) := by
   cases st with
-  | act v ws acc h => exact Dir.actB hex hc d h hn _
+  | act v ws acc xl h => exact Dir.actB hex hc d h hn _
   | dlv m rest h hm =>
     have h : c.ab = m :: rest := h
     have ho : c.abOpen = true := by
